@@ -133,7 +133,12 @@ def json_equal(a, b):
         parts = []
         for k, v in a.items():
             # keys: concrete strs in this model, except map keys which may be symbolic
-            hit = [sym_and(_leaf_eq(k, k2), json_equal(v, v2)) for k2, v2 in b.items()]
+            hit = []
+            for k2, v2 in b.items():
+                ke = _leaf_eq(k, k2)
+                if ke is False:
+                    continue
+                hit.append(sym_and(ke, json_equal(v, v2)))
             parts.append(sym_or(*hit))
         return sym_and(*parts)
     if isinstance(a, list) or isinstance(b, list):
